@@ -662,12 +662,10 @@ class MQTTProtocol(MQTTBaseProtocol):
     # Helper methods (publisher/subscriber)
     # -------------------------------------
 
-    def doConnectionLost(self, reason):
+    def _cancelAlarms(self):
         '''
-        Additional connection lost clean up.
+        Cancel the retransmission alarms of all pending requests
         '''
-       
-        # Cancel Alarms first
         for _, request in self.factory.windowSubscribe[self.addr].items():
             if request.alarm is not None:
                 request.alarm.cancel()
@@ -684,6 +682,22 @@ class MQTTProtocol(MQTTBaseProtocol):
             if request.alarm is not None:
                 request.alarm.cancel()
                 request.alarm = None
+
+
+    def doDisconnected(self):
+        '''
+        No retransmissions after DISCONNECT.
+        '''
+        self._cancelAlarms()
+
+
+    def doConnectionLost(self, reason):
+        '''
+        Additional connection lost clean up.
+        '''
+       
+        # Cancel Alarms first
+        self._cancelAlarms()
         # SUBSCRIBE/UNSUBSCRIBE requests are not part of the session state:
         # nothing will resend them, so their errbacks are invoked anyway
         for k in list(self.factory.windowSubscribe[self.addr]):
